@@ -466,7 +466,7 @@ pub fn cases_for(starts: &[u16], edges: &[u16], thorough: bool, mut f: impl FnMu
         };
         for (preds, sols) in sets {
             for collect_all in [false, true] {
-                f(CkCase { preds: preds.clone(), sols: sols.clone(), pre: vec![], strict: false, collect_all });
+                f(CkCase { preds: preds.clone(), sols: sols.clone(), pre: vec![], strict: false, short: false, collect_all });
             }
         }
     }
